@@ -2,8 +2,8 @@
 the oracle (driver) before it is written.  Run by hand; never at check time.
 
 Entries repaired in the library (status "fixed": exprmissing, exprtruth, strcasecmp, numtype,
-nullarg, adddate, concatstr, condkeys, undefvar, filtertruth, mapmissing, missingcmp) are kept as
-they are; their rows in W are only documentation."""
+nullarg, adddate, concatstr, condkeys, undefvar, filtertruth, mapmissing, missingcmp, minmaxtypes,
+sumbool) are kept as they are; their rows in W are only documentation."""
 import datetime as dt
 import json
 import os
@@ -71,6 +71,15 @@ W = [
      'variable names that do not start with a lower-case letter are accepted ($let vars, `as` of '
      '$map / $filter); the other parts of this class ($ifNull with a single operand, $let / $cond '
      'with extra fields) were repaired in the library by 0c401a3'),
+    ('minmaxtypes', 'project', {'$max': ['$a', 'x']}, {'_id': 0, 'a': 1},
+     '$min / $max as expression operators over values of several types raise TypeError instead '
+     'of ordering them by BSON type'),
+    ('sumbool', 'project', {'$sum': ['$a', '$f']}, {'_id': 0, 'a': 1, 'f': True},
+     '$sum / $avg as expression operators count booleans as 0 / 1 instead of ignoring them like '
+     'every other value that is not a number'),
+    ('accbaremissing', 'project', {'$sum': '$zz'}, {'_id': 0},
+     '$sum / $avg / $min / $max given one bare operand (not a list) that is missing make the '
+     'computed field missing; MongoDB answers 0 for $sum and null for the others'),
     ('andstrict', 'project', {'$and': ['$f', {'$divide': [1, 0]}]}, {'_id': 0, 'f': False},
      '$and parses every operand (a list is built before all()): an operand that raises after '
      'the first false one makes the whole $and raise instead of being skipped'),
